@@ -136,6 +136,11 @@ impl Ctx {
         per.max(1)
     }
 
+    /// cases per shard under Miri (about 300 interpreted library calls per shard); `scale` multiplies it
+    pub fn miri_cases(&self, per_shard: u64) -> u64 {
+        ((per_shard as f64 * self.scale).ceil() as u64).max(1)
+    }
+
     pub fn count(&mut self, key: &str) {
         *self.counters.entry(key.to_string()).or_insert(0) += 1;
     }
@@ -159,7 +164,7 @@ impl Ctx {
 
     /// register a distinct, non-trivial case by structural hash
     pub fn distinct(&mut self, h: u64) {
-        if self.distinct.len() < 4_000_000 {
+        if self.distinct.len() < 500_000 {
             self.distinct.insert(h);
         }
     }
